@@ -21,13 +21,23 @@ ASSUMPTIONS = [
     "the CDCL search itself (watches, 1-UIP analysis, VSIDS heap, reduce_db) is mirrored by the executable model "
     "Sat.Cdcl (R_trace: same status and same assignments in the same order on every explored input); proved about "
     "that mirror for all inputs and parameters: every returned assignment passes evalCnf (cdcl_returns_models_partial, "
-    "inputs without repeated literals in a clause); still open: distinctness, cdcl_infeasible_sound, "
-    "cdcl_fuel_suffices, and that the mirror's give-up exits (fuel, post-conditions of analyze) never fire - so the "
+    "inputs without repeated literals in a clause) and its INFEASIBLE is certified by a verified unit-propagation "
+    "refutation over the learned clauses, each justified by a resolution chain (cdcl_infeasible_sound_partial); "
+    "and it never runs out of fuel (cdcl_fuel_suffices_partial: at most loopFuel(max_conflicts, solution_limit, "
+    "n_vars) iterations); an enumeration it returns is pairwise distinct because it runs distinctB on it before "
+    "returning (guardDistinct); still open: repeated literals, and that the mirror's other give-up exit (GUARD: a "
+    "certificate check - learned-clause chain, refutation before INFEASIBLE, distinctness - or a post-condition "
+    "of analyze fails) never fires - so the "
     "implementation's answers are in addition judged per input by the verified checkers and the proved reference DPLL",
     "heapq modelled as 'pop the least (-activity, var) entry'; VSIDS activities are IEEE doubles on both sides",
     "termination ('the solver always comes back') is observed as a wall-clock limit per call in a worker process "
     "(5 s for inputs that take milliseconds, 20 s for the budgeted hard families; a timeout is re-run alone with "
     "3x the limit before it is reported); the Luby loop's termination is proved on the regenerated source",
+    "family reduce_db_single (250-variable threshold 3-SAT, beyond the reference DPLL's reach): 'satisfiable' is "
+    "taken from the planted assignment, accepted by the verified checker evalCnf in the same request, instead of "
+    "Sat.solve; INFEASIBLE on such an input is the failure false_infeasible, returned assignments are checked by "
+    "evalCnf as everywhere, and the CDCL mirror still runs on it (R_trace); the learned-clause entailment check "
+    "(entailsB, <= 60 variables) does not apply there",
     "MAX_ITER on a satisfiable input counts as a failure only for <= 16 variables with budgets >= the defaults "
     "(100000 conflicts / 10000 restarts), the DESIGN's decidable reading of 'budgets not exhausted'",
 ]
@@ -36,7 +46,12 @@ RULE = ("corpus + hand-written edge cases, then seeded families: random sample o
         "of length <=3, tautologies and duplicate clauses included), mixed-length random CNF (units and binaries "
         "over-represented, gaps in the numbering, duplicate literals), planted-solution and near-threshold 3-SAT, "
         "pigeonhole, random 3-XOR systems, graph colouring, CP-encoder style exactly-one grids, many-model "
-        "enumerations (>2000 blocking clauses so reduce_db fires); assumptions none/random/contradictory/"
+        "enumerations (>2000 blocking clauses so reduce_db fires); plus a fixed number per run (quick 6+26, thorough 10+64, "
+        "extended search 12+160) of reduce_db inputs: all 352 solutions of 9-queens under a random renaming "
+        "(solution_limit > 352, luby_factor 1/2: > 4000 learned clauses between the models) and planted threshold "
+        "3-SAT with 250 variables / 1062 clauses (luby_factor 1/2, max_conflicts 30000) - the mirror's counter "
+        "`reduce_db` says how often the clause database was actually reduced (histogram reduce_db_fired, "
+        "reduce_db_fired>=2:{enumeration,single}; such a case counts as non-trivial only if it was); assumptions none/random/contradictory/"
         "negated-pure-literal/variable-beyond-the-formula; solution_limit in {1,2,3,10,10^4}, luby_factor in {1,2,100}, "
         "max_conflicts/max_restarts default or tiny. Non-trivial = the CDCL mirror's run on the input made >= 1 decision "
         "and met >= 1 conflict; distinct by canonical (clauses, assumptions, options)")
@@ -245,6 +260,65 @@ def gen_many_models(rng, thorough=False):
             "opts": {"solution_limit": 10_000, "luby_factor": rng.choice([1, 1, 2])}}
 
 
+def queens(n):
+    """n-queens as CNF: one queen per row (at-least-one), at most one per row / column / diagonal"""
+    v = lambda i, j: i * n + j + 1  # noqa: E731
+    cl = [[v(i, j) for j in range(n)] for i in range(n)]
+    for i in range(n):
+        for a in range(n):
+            for b in range(a + 1, n):
+                cl.append([-v(i, a), -v(i, b)])
+                cl.append([-v(a, i), -v(b, i)])
+    for i in range(n):
+        for j in range(n):
+            for d in range(1, n):
+                if i + d < n and j + d < n:
+                    cl.append([-v(i, j), -v(i + d, j + d)])
+                if i + d < n and j - d >= 0:
+                    cl.append([-v(i, j), -v(i + d, j - d)])
+    return cl
+
+
+def _relabel(rng, cl, nv):
+    """random renaming of the variables, random order of clauses and of the literals in a clause"""
+    p = list(range(1, nv + 1))
+    rng.shuffle(p)
+    out = [[(1 if l > 0 else -1) * p[abs(l) - 1] for l in c] for c in cl]
+    for c in out:
+        rng.shuffle(c)
+    rng.shuffle(out)
+    return out
+
+
+def gen_reduce_db_enum(rng):
+    """all 352 solutions of 9-queens (81 variables, 1065 clauses) under a random renaming: ~30000 decisions and
+    > 4000 learned clauses between the models, so the unchanged solver reduces its clause database (at least)
+    twice while ~200 blocking clauses are already in it"""
+    return {"family": "reduce_db_enum", "clauses": _relabel(rng, queens(9), 81), "assumptions": [],
+            "opts": {"solution_limit": rng.choice([400, 1000, 10_000]), "luby_factor": rng.choice([1, 2])}}
+
+
+def gen_reduce_db_single(rng, n=250, m=1062):
+    """random 3-SAT at the threshold ratio with a planted solution; 250 variables need several thousand conflicts
+    (about half of these instances reduce the clause database twice or more).  Too large for the reference
+    DPLL: the planted assignment is sent along and checked by evalCnf (`lite` request)"""
+    sol = [rng.random() < 0.5 for _ in range(n + 1)]
+    cl = []
+    while len(cl) < m:
+        vs = rng.sample(range(1, n + 1), 3)
+        c = [v if rng.random() < 0.5 else -v for v in vs]
+        if any((l > 0) == sol[abs(l)] for l in c):
+            cl.append(c)
+    used = sorted({abs(l) for c in cl for l in c})
+    return {"family": "reduce_db_single", "clauses": cl, "assumptions": [],
+            "opts": {"luby_factor": rng.choice([1, 1, 1, 2]), "max_conflicts": 30_000},
+            "lite": True, "witness": [[[v, 1 if sol[v] else 0] for v in range(1, max(used) + 1)]]}
+
+
+def reduce_db_cases(rng, n_enum, n_single):
+    return [gen_reduce_db_enum(rng) for _ in range(n_enum)] + [gen_reduce_db_single(rng) for _ in range(n_single)]
+
+
 def edge_cases():
     E = lambda cl, a=(), **o: {"family": "edge", "clauses": [list(c) for c in cl], "assumptions": list(a), "opts": o}  # noqa: E731
     yield E([])
@@ -299,6 +373,8 @@ def scope_cases(rng, nv, ncl, maxlen, per_formula, cap=None):
 def normalize(case):
     """keep the work of a correct solver small: all-models requests only for <= 12 variable indices (13 in the many_models family) (a blocking clause
     per model makes 10^4 models of a 20-variable formula a matter of minutes in pure Python, legitimately)"""
+    if case["family"].startswith("reduce_db"):
+        return case
     if case["opts"].get("solution_limit", 1) > 10 and n_vars(case) > (13 if case["family"] == "many_models" else 12):
         case["opts"]["solution_limit"] = 10
     return case
@@ -356,6 +432,8 @@ def impl(case):
 
 
 def is_hard(case):
+    if case["family"].startswith("reduce_db"):
+        return True
     if case["opts"].get("solution_limit", 1) > 10 and n_vars(case) >= 10:
         return True
     return "max_conflicts" in case["opts"] and case["opts"]["max_conflicts"] >= 20 and case["family"] in (
@@ -411,7 +489,8 @@ def to_request(case, out):
     nv = n_vars(case)
     d, o = defaults(), case["opts"]
     prm = [int(o.get(k, d[k])) for k in ("max_conflicts", "max_restarts", "solution_limit", "luby_factor")]
-    return ["case", case["clauses"], case["assumptions"], single, multi, bool(nv <= 12), prm]
+    return ["case", case["clauses"], case["assumptions"], single, multi, bool(nv <= 12), prm,
+            bool(case.get("lite")), case.get("witness", [])]
 
 
 # ---------------------------------------------------------------------------
@@ -422,7 +501,13 @@ def judge(case, out, reply):
     """All failed clauses of R_prop for one case as (property, class, text); plus notes (list of str) and
     the R_trace-level divergence (or None)."""
     fails, notes, tdiv = [], [], None
-    wf, sat, nv, count, s_chk, m_chk, distinct, br, cf, stat_ok, mirror = reply
+    wf, sat, nv, count, s_chk, m_chk, distinct, br, cf, stat_ok, mirror, wit_ok = reply
+    how = "the proved reference DPLL finds a model of clauses + assumptions"
+    if sat is None:  # `lite` request (large planted instance): satisfiable iff evalCnf accepted the planted assignment
+        sat = True if any(wit_ok) else None
+        how = "the planted assignment is a model of the clauses (verified checker evalCnf)"
+        if sat is None:
+            raise core.Infra(f"lite request without a valid planted assignment: {case['family']}")
     if not stat_ok:
         raise core.Infra("instrumented DPLL disagrees with Sat.solve")
     if not wf:
@@ -435,7 +520,8 @@ def judge(case, out, reply):
         return fails, notes, tdiv
     if out[0] == "timeout":
         fails.append(("C02", "no_return", f"no answer within {out[1]:.0f} s of wall clock (re-run alone included); "
-                      f"the reference DPLL decides this input ({'sat' if sat else 'unsat'}) with {br} branchings"))
+                      + (f"the reference DPLL decides this input ({'sat' if sat else 'unsat'}) with {br} branchings"
+                         if not case.get("lite") else "the input has a planted model")))
         return fails, notes, tdiv
     if out[0] != "ok":
         kind = err_kind(out)
@@ -468,7 +554,7 @@ def judge(case, out, reply):
     has_model = bool(s_chk) or bool(m_chk)
     if st == "INFEASIBLE" and sat:
         fails.append(("C02", "false_infeasible" + (":assumptions" if asm else ""),
-                      "INFEASIBLE although the proved reference DPLL finds a model of clauses + assumptions"))
+                      "INFEASIBLE although " + how))
     if has_model and not sat:
         fails.append(("C02", "model_for_unsat" + feature, "an assignment was returned although clauses + assumptions are "
                       "unsatisfiable (proved DPLL verdict)"))
@@ -524,7 +610,7 @@ def run_cases(ctx, prop, cases, shrink=True):
             ctx.count(n)
         ctx.count("family:" + c["family"])
         ctx.count("outcome:" + (o[1]["status"] if o[0] == "ok" else err_kind(o) if o[0] != "timeout_unconfirmed" else "Timeout?"))
-        ctx.count("truth:" + ("sat" if rp[1] else "unsat"))
+        ctx.count("truth:" + ("sat(planted)" if rp[1] is None else "sat" if rp[1] else "unsat"))
         for k in sorted(c["opts"]):
             ctx.count(f"opt:{k}={c['opts'][k]}")
         ctx.count("assumptions:" + ("yes" if c["assumptions"] else "no"))
@@ -574,7 +660,13 @@ def run_cases(ctx, prop, cases, shrink=True):
         ctx.count("mirror:restarts>0" if ms[3] else "mirror:restarts=0")
         if ms[4] >= 2000:
             ctx.count("mirror:learned>=2000(reduce_db)")
-        ctx.case(canon(c), ms[0] >= 1 and ms[2] >= 1,
+        if ms[7] >= 1:
+            ctx.count("reduce_db_fired")
+        if ms[7] >= 2:
+            ctx.count("reduce_db_fired>=2")
+            ctx.count("reduce_db_fired>=2:" + ("enumeration" if c["opts"].get("solution_limit", 1) > 1 else "single"))
+        ctx.cov["reduce_db_reductions"] = ctx.cov.get("reduce_db_reductions", 0) + ms[7]
+        ctx.case(canon(c), (ms[0] >= 1 and ms[2] >= 1) and (ms[7] >= 1 or not c["family"].startswith("reduce_db")),
                  {"case": c if len(str(c)) < 1500 else {"family": c["family"], "n_vars": rp[2], "clauses": len(c["clauses"])},
                   "impl": ({k: (v if k not in ("solutions",) else (len(v) if v else v)) for k, v in o[1].items()}
                            if o[0] == "ok" else list(o)),
@@ -585,7 +677,7 @@ def _reply_doc(rp, brief=False):
     d = {"wf": rp[0], "dpll_sat": rp[1], "n_vars": rp[2], "model_count": rp[3], "distinct": rp[6],
          "dpll_branchings": rp[7], "dpll_conflicts": rp[8],
          "mirror": {"status": rp[10][0], "n_solutions": rp[10][2], "solution_equal": rp[10][3], "solutions_equal": rp[10][4],
-                    "decisions,propagations,conflicts,restarts,learned,iterations,fuel": rp[10][5]}}
+                    "decisions,propagations,conflicts,restarts,learned,iterations,fuel,reduce_db": rp[10][5]}}
     if not brief:
         d["evalCnf_solution"] = rp[4]
         d["evalCnf_solutions"] = rp[5] if len(rp[5]) <= 50 else rp[5][:50] + ["..."]
@@ -600,7 +692,14 @@ def _reply_doc(rp, brief=False):
 
 def _candidates(case):
     cl, asm, opts = case["clauses"], case["assumptions"], case["opts"]
-    mk = lambda c, a, o: {"family": case["family"], "clauses": c, "assumptions": a, "opts": o}  # noqa: E731
+    keep = {k: case[k] for k in ("lite", "witness") if k in case}
+    mk = lambda c, a, o: {"family": case["family"], "clauses": c, "assumptions": a, "opts": o, **keep}  # noqa: E731
+    if len(cl) > 200:  # large formula: drop blocks of clauses only (halves, quarters, ... sixteenths)
+        for parts in (2, 4, 8, 16):
+            w = -(-len(cl) // parts)
+            for i in range(0, len(cl), w):
+                yield mk(cl[:i] + cl[i + w:], asm, opts)
+        return
     for i in range(len(cl)):
         yield mk(cl[:i] + cl[i + 1:], asm, opts)
     for i in range(len(asm)):
@@ -629,6 +728,8 @@ def shrink_case(ctx, prop, case, klass, rounds=40):
     limit = 3.0 if klass == "no_return" else 10.0
     if klass == "no_return":
         rounds = 6
+    if len(case["clauses"]) > 200:
+        limit, rounds = 20.0, 8
     cur = case
     for _ in range(rounds):
         cands = list(_candidates(cur))[:(32 if klass == "no_return" else 400)]
@@ -658,14 +759,27 @@ def run_prop(ctx, prop, budget, weights, n_quick):
     ctx.cov["rule"] = RULE
     ctx.cov.setdefault("cert_checked_impl", 0)
     ctx.cov["missing_theorems"] = ["cdcl_returns_models [S] (proved: cdcl_returns_models_partial - every assignment the "
-                                   "mirror returns passes evalCnf, for inputs without repeated literals in a clause; open: "
-                                   "repeated literals, pairwise distinctness, the mirror's FUEL/GUARD exits never fire)",
-                                   "cdcl_infeasible_sound [S]", "cdcl_fuel_suffices [S]"]
+                                   "mirror returns passes evalCnf, for inputs without repeated literals in a clause, and enumerations are "
+                                   "pairwise distinct (checked by the mirror before returning); open: repeated literals, "
+                                   "the mirror's GUARD exit never fires)",
+                                   "cdcl_infeasible_sound [S] (proved: cdcl_infeasible_sound_partial - INFEASIBLE from the "
+                                   "certifying mirror implies unsatisfiable, inputs without repeated literals)",
+                                   "cdcl_fuel_suffices [S] (proved: cdcl_fuel_suffices_partial - the mirror's FUEL exit is "
+                                   "never taken, inputs without repeated literals / empty clauses; open: the GUARD exit)"]
     first = list(edge_cases()) + [c["case"] for c in core.load_corpus("C01")] + [c["case"] for c in core.load_corpus("C02")]
     for c in first:
         c.setdefault("family", "corpus")
     run_cases(ctx, prop, first)
     searching = getattr(ctx, "seed_shift", 0)  # second call by main.py: the extended failing-input search
+    # a fixed number of inputs on which the solver reduces its learned-clause database (several times): code that
+    # only runs inside / after reduce_db is out of reach of the small families below
+    n_enum, n_single = (12, 160) if searching else (10, 64) if ctx.tier == "thorough" else (6, 26)
+    t1 = time.time()
+    run_cases(ctx, prop, reduce_db_cases(ctx.rng, n_enum, n_single))
+    ctx.cov.setdefault("chunk_seconds", []).append(["reduce_db", n_enum + n_single, round(time.time() - t1, 1)])
+    if ctx.cov["histogram"].get("reduce_db_fired>=2:enumeration", 0) < 2 or ctx.cov["histogram"].get("reduce_db_fired>=2:single", 0) < 2:
+        ctx.notes.append("reach: fewer than 2 enumeration / 2 single-solution inputs made the mirror reduce its clause "
+                         "database twice in this run")
     if searching or ctx.tier == "thorough":
         # exhaustive small scope: every CNF over <=3 variables with <=3 clauses of length <=3 (11521 formulas),
         # and a sample of the <=4 variables / <=4 clauses scope
